@@ -213,10 +213,29 @@ IMPL = {
 }
 
 
+def _array_get(a0, a1, a2, i):
+    from pysnark.array import Array
+    return Array([a0, a1, a2])[i]
+
+
+def _array_set(a0, a1, a2, i, v):
+    from pysnark.array import Array
+    arr = Array([a0, a1, a2])
+    arr[i] = v
+    return list(arr.arr)
+
+
+IMPL_EXTRA = {"array_get": _array_get, "array_set": _array_set}
+
+
 def _unpack_intmod(m, bits):
     from pysnark.pack import PackIntMod
     return PackIntMod(m).unpack(list(bits), 0)
 
+
+IMPL.update(IMPL_EXTRA)
+REF["array_get"] = lambda a0, a1, a2, i: [a0, a1, a2][i] if 0 <= i < 3 else (_ for _ in ()).throw(RefRaise())
+REF["array_set"] = lambda a0, a1, a2, i, v: [v if k == i else x for k, x in enumerate([a0, a1, a2])] if 0 <= i < 3 else (_ for _ in ()).throw(RefRaise())
 
 BINARY_INT = ["add", "sub", "mul", "truediv", "floordiv", "mod", "divmod", "pow", "lshift",
               "rshift", "and", "or", "xor", "lt", "le", "eq", "ne", "gt", "ge"]
